@@ -153,6 +153,7 @@ func ExpandScript(items []SItem, fromClient bool, seed uint64) ([]Seg, []Exp) {
 				}
 			}
 			e.exps[msgIdx].EndOff = e.total()
+			ctlAt(len(parts) - 1)
 		case "raw":
 			x := Exp{Control: it.B0&0x08 != 0, Op: int(it.B0 & 0x0f), Violation: it.Reason, StartOff: e.total()}
 			if it.Reason == "" {
